@@ -155,7 +155,7 @@ class Env:
     def track(self, k):
         from mopidy.models import Track
 
-        return Track(uri=self.uri_of(k), name=f"n{k}", length=self.lengths[k])
+        return Track(uri=self.uri_of(k), name=f"n{k}", length=self.lengths[k], genre=f"g{k}", comment=f"c{k}")
 
 
 def shuffle_perm(seed, items):
